@@ -534,7 +534,12 @@ class ReplaceOperators(ast.NodeTransformer):
     def visit_Compare(self, node):
         # print('visiting compare')
         left = ast.NodeTransformer.generic_visit(self, node.left)
-        right = node.comparators # ast.NodeTransformer.generic_visit(self, node.comparators)
+        right = node.comparators
+        if (len(right) == 1):
+            # a single comparator is an operand like the left one, so that
+            # toVerilog parenthesises it when it is itself an operator:
+            # 5 == (a & 7) must not become 5==a&7
+            right = ast.NodeTransformer.generic_visit(self, right[0])
         node = VerilogOperator(left, node.ops, right)            
         return node
     
